@@ -554,6 +554,10 @@ func x03Fail(env *Env, assert, class, detail string, c any) {
 }
 
 func x03Replay(env *Env) {
+	if env.opt("tables", "") != "" {
+		x03ReplayTables(env)
+		return
+	}
 	cases := loadCases[x03Case](env.cases)
 	for i := range cases {
 		if x03Unlisted > 120 {
@@ -986,6 +990,14 @@ func x03RtEvent(ann map[string]any, def string) map[string]any {
 }
 
 func x03Record(env *Env) {
+	if f := env.opt("ecochild", ""); f != "" {
+		x03EcoChild(env, f)
+		return
+	}
+	if env.opt("tables", "") != "" {
+		x03RecordTables(env)
+		return
+	}
 	g := &x03Gen{env: env, classes: map[string]int{}}
 	if dir := env.opt("dir", ""); dir != "" {
 		x03WriteFiles(env, g, dir)
